@@ -347,6 +347,13 @@ func hook(c rescorr.Case, ms *yang.Modules, errs []error, out *rescorr.GoOut) {
 				for k, px := range pf {
 					qs = append(qs, query{p.a, cref, absPath(px, b.schema, (pi+k)%3), "t" + strconv.Itoa(p.b), "abs"})
 				}
+				// the NAME of an imported module is not a prefix (unless some prefix statement says so)
+				for _, imp := range ctx.Import {
+					if nm := imp.Name; !known[nm] && !unknownDone[cref+"\x00"+nm] && ownerOf(ms, ms.FindModule(imp)) == bt.mod {
+						unknownDone[cref+"\x00"+nm] = true
+						qs = append(qs, query{p.a, cref, absPath(nm, b.schema, 0), "nil", "name-as-prefix"})
+					}
+				}
 				// a prefix the context module does not bind: nothing may be found
 				own := bt.mod.GetPrefix()
 				if len(pf) == 0 && own != "" && !known[own] && !unknownDone[cref+"\x00"+own] {
@@ -568,7 +575,7 @@ func hook(c rescorr.Case, ms *yang.Modules, errs []error, out *rescorr.GoOut) {
 		out.Extra["a"] = append(out.Extra["a"], fmt.Sprintf("%s:%d:%d", ans, dn, de))
 		out.Extra["want"] = append(out.Extra["want"], want)
 		out.Extra["kind"] = append(out.Extra["kind"], q.kind+" "+limit)
-		if q.kind != "create" && q.kind != "unknown-prefix" && (dn != 0 || de != 0) {
+		if q.kind != "create" && q.kind != "unknown-prefix" && q.kind != "name-as-prefix" && (dn != 0 || de != 0) {
 			add(fmt.Sprintf("Find(%q) from %s changed the trees: %+d nodes, %+d errors", q.path, readableLoc(w.trees[st.tree].ref+"/"+encSteps(st.steps)+"/"+lib.HexS(st.e.Path())), dn, de))
 		}
 	}
@@ -765,7 +772,7 @@ func judge(w worked, res *lib.Result, t *tally, verbose bool) (bad bool) {
 			t.kinds["late-grafted-choices"] += int64(l)
 		}
 	}
-	reported := 0
+	reportedSpec, reportedCorr := 0, 0 // separate caps: a tree that differs from the model must not crowd out the lookups that violate the property
 	for i := range q {
 		t.queries++
 		kf := strings.SplitN(kind[i], " ", 2)
@@ -789,24 +796,24 @@ func judge(w worked, res *lib.Result, t *tally, verbose bool) (bad bool) {
 		if verbose {
 			fmt.Printf("%-14s %s\n    go:    %s\n    model: %s\n    want:  %s\n", kf[0], readableQuery(q[i]), readableLoc(a[i]), readableLoc(mans[i]), readableLoc(want[i]))
 		}
-		if reported >= 6 {
-			continue
-		}
 		if violates {
+			t.kinds["VIOLATING-"+kf[0]]++ // uncapped count per lookup family
+		}
+		if violates && reportedSpec < 6 {
 			known := ""
 			if len(kf) > 1 && kf[1] != "" && !wf {
 				known = kf[1]
 			}
-			reported++
+			reportedSpec++
 			report(lib.Disagreement{Kind: "spec", Go: readableLoc(a[i]), Model: readableLoc(mans[i]), SpecVerdict: "violates", Known: known,
 				What: fmt.Sprintf("%s: %s returned %s, the path names %s", kf[0], readableQuery(q[i]), readableLoc(goLoc), readableLoc(want[i]))})
 		}
-		if a[i] != mans[i] {
+		if a[i] != mans[i] && reportedCorr < 4 {
 			v := "holds"
 			if violates {
 				v = "violates"
 			}
-			reported++
+			reportedCorr++
 			report(lib.Disagreement{Kind: "correspondence", Go: readableLoc(a[i]), Model: readableLoc(mans[i]), SpecVerdict: v,
 				What: fmt.Sprintf("%s: model and Go differ on %s (lookup %d of the set)", kf[0], readableQuery(q[i]), i)})
 		}
@@ -871,6 +878,15 @@ func main() {
 	}
 	t := &tally{kinds: map[string]int64{}, triples: lib.NewDistinct()}
 	work := func(cases []rescorr.Case, sampleEvery int) {
+		if only := os.Getenv("C17_ONLY"); only != "" { // debugging aid: run the cases whose label contains the text
+			var keep []rescorr.Case
+			for _, c := range cases {
+				if strings.Contains(c.Extra["label"], only) {
+					keep = append(keep, c)
+				}
+			}
+			cases = keep
+		}
 		ws := runCases(cases, f)
 		for i, w := range ws {
 			judge(w, res, t, false)
@@ -898,6 +914,9 @@ func main() {
 				cfg.Deviations = false
 			}
 			set := gen.Generate(r, cfg)
+			if i%8 == 0 || i%8 == 5 || i%8 == 2 {
+				collidePrefixes(r, set)
+			}
 			if i%4 == 1 {
 				addLateAugments(r, set)
 			}
@@ -917,7 +936,7 @@ func main() {
 	}
 	res.Evaluations = t.queries
 	res.DistinctNontrivial = t.triples.Len()
-	res.Rule = "hand-written corpus (the Lean example forest, submodules, grouping copies from other modules, implicit cases, absent rpc/action input and output, the documented-limit witnesses D17-L1, the rejected augment into an rpc node) + seeded grammar-directed module sets (harness/gen; 3/4 without deliberate faults; 1/4 with added late augments: target through or at the implied case of a shorthand choice member, body with shorthand choice members, written in the owning module, a submodule or an importing module); per error-free set all (start, target) pairs of nodes of all module and submodule trees up to 40 nodes (sampled beyond) x absolute path under every prefix the start's context module binds to the target's module (3 spellings) and relative path, + one-corrupted-step paths (unknown name, empty step, bogus below rpc, step below a leaf, `..` above the root, unbound prefix, and every name of a deeper descendant used as a direct step, absolute and relative), + creation of absent rpc inputs/outputs; evaluations = Find calls compared with the model; distinct_nontrivial = distinct (set, start, target) triples looked up with a path of at least 2 steps"
+	res.Rule = "hand-written corpus (the Lean example forest, submodules, grouping copies from other modules, implicit cases, absent rpc/action input and output, the documented-limit witnesses D17-L1, the rejected augment into an rpc node) + seeded grammar-directed module sets (harness/gen; 3/4 without deliberate faults; 3/8 with prefixes re-assigned so that import prefixes and own prefixes collide with module names (name of another import before or after it, own module name, mutual) and shuffled import order; 1/4 with added late augments: target through or at the implied case of a shorthand choice member, body with shorthand choice members, written in the owning module, a submodule or an importing module); per error-free set all (start, target) pairs of nodes of all module and submodule trees up to 40 nodes (sampled beyond) x absolute path under every prefix the start's context module binds to the target's module (3 spellings) and relative path, + one-corrupted-step paths (unknown name, empty step, bogus below rpc, step below a leaf, `..` above the root, unbound prefix, an imported module's name used as prefix, and every name of a deeper descendant used as a direct step, absolute and relative), + creation of absent rpc inputs/outputs; evaluations = Find calls compared with the model; distinct_nontrivial = distinct (set, start, target) triples looked up with a path of at least 2 steps"
 	res.Distribution["sets_compared"] = t.sets
 	res.Distribution["sets_without_trees(errors/parse)"] = t.noTrees
 	res.Distribution["outside_model"] = t.outside
